@@ -3,9 +3,12 @@
 package priority
 
 import (
+	"time"
+
 	"github.com/akramarenkov/cqos/v2/internal/general"
 	"github.com/akramarenkov/cqos/v2/priority/divider"
 	"github.com/akramarenkov/cqos/v2/priority/internal/common"
+	"github.com/akramarenkov/cqos/v2/priority/types"
 )
 
 // Verification hooks (build tag verif): expose unexported pure helpers.
@@ -44,4 +47,106 @@ func VerifPrepare(divider divider.Divider, keys []uint, quantity uint) ([]uint, 
 	_, priorities, strategic, err := prepare(opts)
 
 	return priorities, strategic, err
+}
+
+// VerifStepper drives a real Discipline one method call at a time: the value is
+// built exactly like New builds it, but the main goroutine is not started.
+type VerifStepper[Type any] struct {
+	dsc *Discipline[Type]
+}
+
+func VerifNewStepper[Type any](opts Opts[Type]) (*VerifStepper[Type], error) {
+	if err := opts.isValid(); err != nil {
+		return nil, err
+	}
+
+	capacity := general.DivideWithMin(
+		opts.HandlersQuantity,
+		common.DefaultCapacityDivider,
+		uint(len(opts.Inputs)),
+	)
+
+	feedbackLimit := general.DivideWithMin(
+		opts.HandlersQuantity,
+		defaultFeedbackLimitDivider,
+		uint(len(opts.Inputs)),
+	)
+
+	inputs, priorities, strategic, err := prepare(opts)
+	if err != nil {
+		return nil, err
+	}
+
+	dsc := &Discipline[Type]{
+		opts: opts,
+
+		feedback: make(chan uint, capacity),
+		inputs:   inputs,
+		output:   make(chan types.Prioritized[Type], capacity),
+
+		priorities: priorities,
+
+		actual:    make(map[uint]uint),
+		strategic: strategic,
+		tactic:    make(map[uint]uint),
+
+		feedbackLimit: feedbackLimit,
+
+		interrupter: time.NewTicker(defaultInterruptTimeout),
+
+		err: make(chan error, 1),
+	}
+
+	return &VerifStepper[Type]{dsc: dsc}, nil
+}
+
+func (stp *VerifStepper[Type]) Discipline() *Discipline[Type] { return stp.dsc }
+func (stp *VerifStepper[Type]) CalcTactic() (bool, error)     { return stp.dsc.calcTactic() }
+func (stp *VerifStepper[Type]) GetOneFeedback()               { stp.dsc.getOneFeedback() }
+func (stp *VerifStepper[Type]) Prioritize() uint              { return stp.dsc.prioritize() }
+func (stp *VerifStepper[Type]) RecalcTactic() (bool, error)   { return stp.dsc.recalcTactic() }
+func (stp *VerifStepper[Type]) Base() (uint, error)           { return stp.dsc.base() }
+func (stp *VerifStepper[Type]) GetLimitedFeedback()           { stp.dsc.getLimitedFeedback() }
+func (stp *VerifStepper[Type]) WaitZeroActual()               { stp.dsc.waitZeroActual() }
+func (stp *VerifStepper[Type]) IsDrainedInputs() bool         { return stp.dsc.isDrainedInputs() }
+func (stp *VerifStepper[Type]) IsZeroActual() bool            { return stp.dsc.isZeroActual() }
+func (stp *VerifStepper[Type]) Loop() error                   { return stp.dsc.loop() }
+func (stp *VerifStepper[Type]) Feedback() chan uint           { return stp.dsc.feedback }
+func (stp *VerifStepper[Type]) FeedbackLimit() uint           { return stp.dsc.feedbackLimit }
+func (stp *VerifStepper[Type]) StopTicker()                   { stp.dsc.interrupter.Stop() }
+
+func (stp *VerifStepper[Type]) OutputChan() chan types.Prioritized[Type] { return stp.dsc.output }
+
+// Read-only copies of the scheduler state.
+func (stp *VerifStepper[Type]) Snapshot() (
+	actual map[uint]uint,
+	strategic map[uint]uint,
+	tactic map[uint]uint,
+	priorities []uint,
+	drained map[uint]bool,
+) {
+	actual = make(map[uint]uint)
+	strategic = make(map[uint]uint)
+	tactic = make(map[uint]uint)
+	drained = make(map[uint]bool)
+
+	for k, v := range stp.dsc.actual {
+		actual[k] = v
+	}
+
+	for k, v := range stp.dsc.strategic {
+		strategic[k] = v
+	}
+
+	for k, v := range stp.dsc.tactic {
+		tactic[k] = v
+	}
+
+	priorities = append(priorities, stp.dsc.priorities...)
+
+	for k, v := range stp.dsc.inputs {
+		drained[k] = v.Drained
+	}
+
+	return actual, strategic, tactic, priorities, drained
 }
